@@ -100,6 +100,7 @@ class InertConsumer(Consumer):
         if sum(1 for ch in s if ch in '\\~#$%&^_{}') >= 2:
             self.nontrivial += 1
         self.sample(dict(case, out=uncodes(rec['out'])), every=4999)
+        callers_modify_their_rule_lists()
         enc = UnicodeToLatexEncoder(conversion_rules=[c['table']], replacement_latex_protection=c['scheme'],
                                     unknown_char_warning=False)
         st, val = guarded(enc.unicode_to_latex, s)
@@ -139,8 +140,30 @@ def replacement_spans(s, tname, scheme, encoded):
     return spans if p == len(encoded) else []
 
 
+_mutated = []
+
+
+def callers_modify_their_rule_lists():
+    """Once per process, before any encoder under test is built: two callers obtain the built-in rule lists and extend /
+    prepend to THEIR lists (documented way of combining rules).  Encoders built afterwards from the rule-set names must
+    not be affected."""
+    if _mutated:
+        return
+    from pylatexenc.latexencode import (get_builtin_conversion_rules, UnicodeToLatexConversionRule, RULE_DICT,
+                                        UnicodeToLatexEncoder)
+    mine = get_builtin_conversion_rules('unicode-xml')
+    mine += get_builtin_conversion_rules('defaults')
+    mine2 = get_builtin_conversion_rules('defaults')
+    mine2.insert(0, UnicodeToLatexConversionRule(RULE_DICT, {ord('{'): '{', ord('}'): '}', 0x0e18: 'X'},
+                                                  replacement_latex_protection='none'))
+    UnicodeToLatexEncoder(conversion_rules=mine, unknown_char_warning=False).unicode_to_latex('a{b}\u0259')
+    UnicodeToLatexEncoder(conversion_rules=mine2, unknown_char_warning=False).unicode_to_latex('a{b}\u0259')
+    _mutated.append(True)
+
+
 def _probe_worker(args):
     """Real encoder + real strict parser on a batch of strings; returns traces for the TLC acceptors."""
+    callers_modify_their_rule_lists()
     tname, scheme, policy, strings = args
     from pylatexenc.latexencode import UnicodeToLatexEncoder
     enc = UnicodeToLatexEncoder(conversion_rules=[tname], replacement_latex_protection=scheme,
